@@ -6,6 +6,8 @@ CONSTANTS
   Strategies = {"MASTER", "BOTH", "REPLICA"}
   Kinds = {"read", "write", "unsupported", "local"}
   MaxReq = 1
+  MaxUpdates = 1
+  StickyStrategy = FALSE
   SharedScratch = FALSE
 CONSTRAINT RecordWindows
 POSTCONDITION AllWindowsReached
